@@ -199,6 +199,7 @@ SimObs ==
     \/ obs.st = "on" /\ \E l \in {RandomElement(LeafSlots(obs.tree))} : ObsPropose("rem", l)
     \/ obs.st = "on" /\ RandomElement(1..(2 + Z)) = 1 /\ \E kind \in {"gce", "custom"} : ObsPropose(kind, 0)
     \/ obs.st = "on" /\ RandomElement(1..(2 + Z)) = 1 /\ \E id \in PskIds : ObsPropose("psk", id)
+    \/ obs.st = "on" /\ TLCGet("level") > 20 /\ RandomElement(1..(3 + Z)) = 1 /\ ObsPropose("reinit", 0)
 
 \* successor groups: key packages of members, creation with the exact member set / one missing / an outsider
 \* added, joins through the right and the wrong API; a by-value re-init commit once the group has some history
